@@ -76,6 +76,10 @@ func matchKnown(kfs []KnownFinding, prop string, v Violation) *KnownFinding {
 
 // nativeReplay runs the cases against the natively compiled real code (go test -overlay).
 func nativeReplay(P *Program, pkg string, cases []vCase) ([][]string, error) {
+	return nativeReplayOpt(P, pkg, cases, false)
+}
+
+func nativeReplayOpt(P *Program, pkg string, cases []vCase, race bool) ([][]string, error) {
 	if len(cases) == 0 {
 		return nil, nil
 	}
@@ -107,7 +111,12 @@ func nativeReplay(P *Program, pkg string, cases []vCase) ([][]string, error) {
 	cb, _ := json.Marshal(cases)
 	casePath := filepath.Join(tmp, "cases.json")
 	os.WriteFile(casePath, cb, 0644)
-	cmd := exec.Command("go", "test", "-tags", "verif", "-vet=off", "-count=1", "-v", "-timeout", "20m", "-run", "^TestVerifReplay$", "-overlay", ovPath, "./"+pkg)
+	args := []string{"test", "-tags", "verif", "-vet=off", "-count=1", "-v", "-timeout", "20m", "-run", "^TestVerifReplay$", "-overlay", ovPath}
+	if race {
+		args = append(args, "-race")
+	}
+	args = append(args, "./"+pkg)
+	cmd := exec.Command("go", args...)
 	cmd.Dir = repoDir
 	cmd.Env = append(os.Environ(), "GOFLAGS=-mod=mod", "GOPROXY=off", "GOSUMDB=off", "GOTOOLCHAIN=local", "VERIF_REPLAY="+casePath)
 	var out bytes.Buffer
@@ -124,6 +133,10 @@ func nativeReplay(P *Program, pkg string, cases []vCase) ([][]string, error) {
 		case strings.HasPrefix(line, "VLOG "):
 			if cur >= 0 && cur < len(logs) {
 				logs[cur] = append(logs[cur], strings.TrimPrefix(line, "VLOG "))
+			}
+		case strings.Contains(line, "WARNING: DATA RACE"):
+			if cur >= 0 && cur < len(logs) {
+				logs[cur] = append(logs[cur], "RACE")
 			}
 		case strings.HasPrefix(line, "VEND "):
 			ended++
@@ -165,6 +178,9 @@ func reproduces(v Violation, log []string) bool {
 			return true
 		}
 		if v.Kind == "panic" && strings.HasPrefix(l, "PANIC ") {
+			return true
+		}
+		if l == "RACE" && strings.Contains(v.Assertion, "no-shared-write") {
 			return true
 		}
 	}
@@ -217,13 +233,20 @@ func runProperty(prop, tier string, workers int) int {
 		for _, p := range cs {
 			items = append(items, WorkItem{Spec: s, Params: p, Idx: len(items)})
 		}
-		// vacuity twin on the last tuple of each spec
-		tw := map[string]int{"__twin": 1}
-		for k, v := range cs[len(cs)-1] {
-			tw[k] = v
+		// vacuity twins on the first, middle and last tuple of each spec (one must be violated)
+		seenTw := map[int]bool{}
+		for _, ti := range []int{0, len(cs) / 2, len(cs) - 1} {
+			if seenTw[ti] {
+				continue
+			}
+			seenTw[ti] = true
+			tw := map[string]int{"__twin": 1}
+			for k, v := range cs[ti] {
+				tw[k] = v
+			}
+			twinIdx[len(items)] = true
+			items = append(items, WorkItem{Spec: s, Params: tw, Idx: len(items)})
 		}
-		twinIdx[len(items)] = true
-		items = append(items, WorkItem{Spec: s, Params: tw, Idx: len(items)})
 	}
 	results, rerr := runItems(P, items, workers, -1, false)
 	if rerr != nil {
@@ -275,11 +298,13 @@ func runProperty(prop, tier string, workers int) int {
 			case r.Res.Status == "violation":
 				sm.Twin = "violated"
 			case r.Res.Status == "inconclusive":
-				sm.Twin = "inconclusive: " + r.Res.Reason
-				inconclusive = append(inconclusive, s.Name+" twin: "+r.Res.Reason)
+				if sm.Twin != "violated" {
+					sm.Twin = "inconclusive: " + firstLine(r.Res.Reason)
+				}
 			default:
-				sm.Twin = "NOT violated (harness is vacuous)"
-				inconclusive = append(inconclusive, s.Name+": vacuity twin not violated")
+				if sm.Twin == "not-run" {
+					sm.Twin = "NOT violated"
+				}
 			}
 			continue
 		}
@@ -319,6 +344,12 @@ func runProperty(prop, tier string, workers int) int {
 		}
 		for _, v := range r.Res.Violations {
 			cands = append(cands, cand{s.Pkg, v})
+		}
+	}
+
+	for _, n := range order {
+		if sums[n].Twin != "violated" {
+			inconclusive = append(inconclusive, n+": vacuity twin "+sums[n].Twin)
 		}
 	}
 
@@ -378,7 +409,7 @@ func runProperty(prop, tier string, workers int) int {
 		for _, i := range idxs {
 			cases = append(cases, vCase{Harness: cands[i].v.Harness, Params: cands[i].v.Params, Inputs: cands[i].v.Inputs})
 		}
-		logs, err := nativeReplay(P, pkg, cases)
+		logs, err := nativeReplayOpt(P, pkg, cases, prop == "C11")
 		if err != nil {
 			inconclusive = append(inconclusive, "counterexample replay: "+err.Error())
 			continue
